@@ -432,6 +432,48 @@ def finite_difference_steps(M, rec, rng, g, reps):
                           dict(bad, desc=desc, parameter=attr, values=list(order), vals=vals, pars=pars))
 
 
+def fill_engine_buffers_written_in_place(M, rec, rng, g, reps):
+    """One fill-value NumPy engine and partial initial conditions (queues, demands, rates ... left to the engine): the caller
+    advances the simulation by writing INTO the arrays the engine created (`el.states[name][...] = el.next_states[name]`),
+    then starts a second scenario from the same supplied values with the same engine: what is left to the engine starts
+    from the fill value again, the first result is reproduced."""
+    NE, CE = drive.engines(M)
+    sh = W.shapes_cycle()
+    for it in range(reps):
+        desc = g.all_kinds_network() if it % 3 == 0 else g.network(next(sh))[1]
+        built = D.build(M, desc, D.random_ops(desc, rng))
+        kw = drive.step_pars(g.pars())
+        _, vals = g.values(desc, allow_inf=False)
+        full = drive.np_init(built, vals, "vec1")
+        ic = {el_: {k_: v_ for k_, v_ in d_.items() if k_ in ("rho", "v")} for el_, d_ in full.items() if el_ in list(built.links.values())}
+        eng = NE(var_type=rng.choice((0.0, 0.5, 1.0, 30.0)))
+        try:
+            built.net.step(init_conditions=ic, engine=eng, **kw)
+            r1 = drive.read_next(built)
+            written = 0
+            for el in list(built.net.elements):
+                for grp in (el.states, el.actions, el.disturbances):
+                    for nm, arr in (grp or {}).items():
+                        if isinstance(arr, np.ndarray) and arr.flags.writeable and not any(arr is x_ for d_ in ic.values() for x_ in d_.values()):
+                            nxt_ = (el.next_states or {}).get(nm) if grp is el.states else None
+                            src = np.asarray(nxt_, float).reshape(arr.shape) if nxt_ is not None and np.size(nxt_) == arr.size else arr * 2.0 + 7.0
+                            arr[...] = np.where(np.isfinite(src), src, 5.0)
+                            written += 1
+            built.net.step(init_conditions=ic, engine=eng, **kw)
+            r2 = drive.read_next(built)
+        except Exception as e:
+            rec.count("fill_engine_history_raised")
+            rec.seen("fill_engine_history_raised", repr(e)[:100])
+            continue
+        if not written:
+            continue
+        rec.count("fill_engine_histories_with_buffers_written_in_place")
+        if not _bitwise(r1, r2):
+            rec.violation(f"{PROP}:numpy: after the caller wrote into the arrays a fill-value engine had created, a second scenario from the same supplied values "
+                          "does not reproduce the first step (what the engine creates does not start from its fill value)",
+                          {"desc": desc, "first": _show(r1), "again": _show(r2)})
+
+
 def run(M, rec, tier, seed, k, n):
     np.seterr(all="ignore")
     rng = random.Random(seed * 1000 + k + 1200)
@@ -444,6 +486,7 @@ def run(M, rec, tier, seed, k, n):
         history(M, rec, rng, g, desc)
     reconfigured_fill_engine(M, rec, rng, g, 30 if tier == "quick" else 300)
     finite_difference_steps(M, rec, rng, g, 80 if tier == "quick" else 800)
+    fill_engine_buffers_written_in_place(M, rec, rng, g, 30 if tier == "quick" else 300)
 
 
 def finish(M, rec, write=True):
